@@ -162,7 +162,8 @@ pub enum DeErr {
 }
 
 pub type SerFn = fn(&[Leaf], &[Col]) -> Result<Vec<u8>, SerializationError>;
-pub type DeFn = fn(&[Col], &[u8]) -> Result<Vec<Leaf>, DeErr>;
+/// second argument: the serialized cells; `None` = the whole value is null (UDTs only)
+pub type DeFn = fn(&[Col], Option<&[u8]>) -> Result<Vec<Leaf>, DeErr>;
 
 pub struct StructInfo {
     pub name: &'static str,
@@ -220,26 +221,27 @@ pub fn ser_row<T: Leafy + SerializeRowTrait>(vals: &[Leaf], db: &[Col]) -> Resul
 }
 
 /// `bytes` = the UDT *contents* (sequence of `[i32 len][bytes]` cells), without the outer length.
-pub fn de_value<T>(db: &[Col], bytes: &[u8]) -> Result<Vec<Leaf>, DeErr>
+pub fn de_value<T>(db: &[Col], bytes: Option<&[u8]>) -> Result<Vec<Leaf>, DeErr>
 where
     T: Leafy + for<'f, 'm> DeserializeValueTrait<'f, 'm>,
 {
     let typ = udt_type(db);
     <T as DeserializeValueTrait>::type_check(&typ).map_err(DeErr::TypeCheck)?;
-    let frame = Bytes::copy_from_slice(bytes);
-    let v = <T as DeserializeValueTrait>::deserialize(&typ, Some(FrameSlice::new(&frame))).map_err(DeErr::Deser)?;
+    let frame = Bytes::copy_from_slice(bytes.unwrap_or(&[]));
+    let slice = bytes.map(|_| FrameSlice::new(&frame));
+    let v = <T as DeserializeValueTrait>::deserialize(&typ, slice).map_err(DeErr::Deser)?;
     let mut out = Vec::new();
     v.dump(&mut out);
     Ok(out)
 }
 
-pub fn de_row<T>(db: &[Col], bytes: &[u8]) -> Result<Vec<Leaf>, DeErr>
+pub fn de_row<T>(db: &[Col], bytes: Option<&[u8]>) -> Result<Vec<Leaf>, DeErr>
 where
     T: Leafy + for<'f, 'm> DeserializeRowTrait<'f, 'm>,
 {
     let specs = col_specs(db);
     <T as DeserializeRowTrait>::type_check(&specs).map_err(DeErr::TypeCheck)?;
-    let frame = Bytes::copy_from_slice(bytes);
+    let frame = Bytes::copy_from_slice(bytes.expect("a row is never null"));
     let v = <T as DeserializeRowTrait>::deserialize(ColumnIterator::new(&specs, FrameSlice::new(&frame)))
         .map_err(DeErr::Deser)?;
     let mut out = Vec::new();
@@ -343,6 +345,8 @@ family! {
     value V27 (flavor = "enforce_order", forbid_excess_udt_fields) { a: i32 [], b: i32 [] }
     value V28 (flavor = "enforce_order") { a: i32 [allow_missing], b: String [], c: i32 [allow_missing], d: String [allow_missing], e: i32 [], f: Option<i32> [allow_missing] }
     value V29 (flavor = "enforce_order") { a: i32 [allow_missing], b: i32 [allow_missing], c: i32 [] }
+    // ---------------- skip_name_checks combined with skip ----------------
+    value V36 (flavor = "enforce_order", skip_name_checks) { a: i32 [], s: String [skip], b: String [], c: i32 [allow_missing] }
     // ---------------- fields of collection / nested-UDT / MaybeUnset type through the generated code ----------------
     value V31 (flavor = "match_by_name") { a: i32 [], l: Vec<i32> [], u: U2 [] }
     value V32 (flavor = "match_by_name") { l: Vec<i32> [allow_missing], o: Option<U2> [], a: i32 [default_when_null], u: U2 [rename = "uu", default_when_null] }
@@ -364,6 +368,7 @@ family! {
     row R22 (flavor = "enforce_order", skip_name_checks) { a: i32 [], b: String [], c: i32 [] }
     row R23 (flavor = "enforce_order") { a: i32 [rename = "x"], s: i32 [skip], b: String [default_when_null], c: Option<i32> [default_when_null] }
     row R24 (flavor = "enforce_order") { a: i32 [], b: i32 [], c: String [], d: Option<String> [], e: i32 [] }
+    row R34 (flavor = "enforce_order", skip_name_checks) { s: i32 [skip], a: i32 [], t: String [skip], b: String [default_when_null] }
     row R33 (flavor = "enforce_order") { u: U2 [], l: Vec<i32> [default_when_null], o: Option<Vec<i32>> [] }
     // ---------------- SerializeRow with flatten (by name) ----------------
     srow I0 (flavor = "match_by_name") { x: i32 [], y: String [] }
